@@ -27,6 +27,7 @@ Definition hist_registry (init : registry) (h : list (string * nat)) : registry 
 Fixpoint spec_exec (init : registry) (h : list (string * nat)) (root : tree) (ops : list dop) : list (option outcome) :=
   match ops with
   | [] => []
+  | OClock _ :: r => spec_exec init h root r
   | ORegister s b :: r => spec_exec init (h ++ [(s, b)]) root r
   | OCommit p :: r =>
       match addr root p with
